@@ -1,4 +1,4 @@
-import MgpuProofs.C09Sys2
+import MgpuProofs.C09Sys3
 import MgpuProofs.Props.C09
 import MgpuProofs.Props.C09CU
 import MgpuProofs.Props.C09Held
@@ -182,5 +182,94 @@ example : SOp.launch ⟨7, 64, 64, 16, 4, 256⟩ ∈ demoSOps ∧ (sLaunchIds de
     ((srun demoSys demoSOps).cu 0).pools = [[], []] ∧
     (srun demoSys (demoSOps.take 7)).cp.log.length = 1 :=
   ⟨by unfold demoSOps; exact List.mem_cons_self, by decide⟩
+
+/-- **Termination of the closed loop under a fair schedule (partial: fairness is stated at the command
+    processor's ports).** Pool initially without residents and satisfying the resource invariant, at
+    least one dispatcher; a finite closed prefix `ops0` with all launches (distinct ids, well formed,
+    ≤ 1024 work-items per group, nothing assumed about their demands), then **any** infinite
+    launch-free closed schedule — ticks, deliveries, wavefront moves of all CUs, retrievals in any
+    order — such that again and again a tick happens while the command processor is owed nothing
+    (`EnvReady`: both outgoing buffers have room, the completion of every in-flight request has
+    been delivered, the head message names an in-flight request). Then after finitely many moves of
+    the closed system either a launch was rejected loudly (`fault = some "oversize"`) or every launch
+    has exactly one `LaunchKernelRsp` and its whole grid mapped exactly once — and then, by
+    `closed_loop_response_after_all_completed`, every work-group ran to completion on its CU and
+    was reported and counted once. The decreasing measure is the command processor's lexicographic
+    `(U, F, C)` of `dispatch_progress`, which every closed move other than a progressing tick leaves
+    unchanged. NOT proved: that a closed schedule that is fair move-by-move (every pending
+    delivery eventually happens, every wavefront eventually reaches `s_endpgm`) makes `EnvReady`
+    recur — see `notes/C09.md`. -/
+theorem closed_loop_fair_partial (capsP : List (List Nat)) (cfg : Cfg) (nd : Nat) (pool : List CU)
+    (caps : Nat → List Nat) (room capM capD : Nat) (ops0 : List SOp) (sched : Nat → SOp)
+    (hnd : 0 < nd) (hids : (sLaunchIds ops0).Nodup)
+    (hempty : ∀ cu ∈ pool, cu.resident = []) (hp : PoolInv capsP pool)
+    (hops : ∀ k, SOp.launch k ∈ ops0 → KernOK k ∧ k.wx ≤ 1024)
+    (hnl : ∀ n k, sched n ≠ .launch k)
+    (hfair : ∀ n, ∃ m, n ≤ m ∧ sched m = .tick ∧
+      EnvReady (srun (sinit cfg nd pool caps room capM capD) (ops0 ++ sprefix sched m)).cp) :
+    ∃ N, (srun (sinit cfg nd pool caps room capM capD) (ops0 ++ sprefix sched N)).cp.fault = some "oversize" ∨
+      ∀ k, SOp.launch k ∈ ops0 →
+        rspCount (srun (sinit cfg nd pool caps room capM capD) (ops0 ++ sprefix sched N)).cp.log k.id = 1 ∧
+        mapsOf (srun (sinit cfg nd pool caps room capM capD) (ops0 ++ sprefix sched N)).cp.log k.id
+          = List.range k.numWG := by
+  have key : ∀ N, (srun (sinit cfg nd pool caps room capM capD) (ops0 ++ sprefix sched N)).cp =
+      run (mkCP cfg nd pool) (cpTrace cfg nd pool caps room capM capD ops0 ++
+        prefixOf (cpSched (srun (sinit cfg nd pool caps room capM capD) ops0) sched) N) := by
+    intro N
+    rw [cpTrace_run, cpTrace_append]
+  obtain ⟨N, hN⟩ := every_accepted_launch_is_answered capsP cfg nd pool
+    (cpTrace cfg nd pool caps room capM capD ops0)
+    (cpSched (srun (sinit cfg nd pool caps room capM capD) ops0) sched) hnd
+    (by rw [cpTrace_launchIds]; exact hids) hempty hp
+    (fun k hk => hops k (mem_cpTrace_launch _ _ _ _ _ _ _ _ k hk))
+    (cpSched_not_launch _ sched hnl)
+    (by
+      intro n
+      obtain ⟨m, hm, htick, henv⟩ := hfair n
+      refine ⟨m, hm, ?_, ?_⟩
+      · show cpOp _ (sched m) = .tick
+        rw [htick]; rfl
+      · rw [← key m]; exact henv)
+  refine ⟨N, ?_⟩
+  rw [key N]
+  rcases hN with h | h
+  · exact Or.inl h
+  · exact Or.inr (fun k hk => h k (cpTrace_launch _ _ _ _ _ _ _ _ k hk))
+
+/-- the demo schedule followed by ticks for ever: the hypotheses are met (after the eleven moves the
+    state is a fixed point of `Tick` with nothing in flight), so the kernel is answered -/
+example : ∃ N, (srun demoSys (demoSOps ++ sprefix (fun _ => SOp.tick) N)).cp.fault = some "oversize" ∨
+    ∀ k, SOp.launch k ∈ demoSOps →
+      rspCount (srun demoSys (demoSOps ++ sprefix (fun _ => SOp.tick) N)).cp.log k.id = 1 ∧
+      mapsOf (srun demoSys (demoSOps ++ sprefix (fun _ => SOp.tick) N)).cp.log k.id = List.range k.numWG := by
+  have fix : ∀ n, (srun demoSys (demoSOps ++ sprefix (fun _ => SOp.tick) n)).cp = (srun demoSys demoSOps).cp := by
+    intro n
+    induction n with
+    | zero => simp [sprefix]
+    | succ n ih =>
+      rw [sprefix_succ, ← List.append_assoc, srun_append]
+      show (cpTick (srun demoSys (demoSOps ++ sprefix (fun _ => SOp.tick) n)).cp).1 = _
+      rw [ih]
+      decide
+  refine closed_loop_fair_partial [[2, 2], [2, 2]] demoCfg 2 demoPool (fun _ => [2, 2]) 1 2 2 demoSOps
+    (fun _ => SOp.tick) (by decide) (by decide) (by decide) demoPool_inv ?_ (fun n k h => by cases h) ?_
+  · intro k hk
+    have : k = ⟨7, 64, 64, 16, 4, 256⟩ := by
+      simp only [demoSOps, List.mem_cons, List.not_mem_nil, or_false] at hk
+      rcases hk with h | h | h | h | h | h | h | h | h | h | h <;> first | (cases h; rfl) | cases h
+    subst this
+    exact ⟨⟨by decide, by decide⟩, by decide⟩
+  · intro n
+    refine ⟨n, Nat.le_refl _, rfl, ?_⟩
+    show EnvReady (srun demoSys (demoSOps ++ sprefix (fun _ => SOp.tick) n)).cp
+    rw [fix n]
+    have hnone : ∀ j r, ¬ ((srun demoSys demoSOps).cp.disp j).inFl r := by
+      intro j r
+      have := disp_forall (srun demoSys demoSOps).cp (fun d => d.inflight = []) rfl (by decide) j
+      simp [Disp.inFl, this]
+    refine ⟨by decide, by decide, fun j r h => absurd h (hnone j r), ?_⟩
+    intro ids rest h
+    have : (srun demoSys demoSOps).cp.cuIn = [] := by decide
+    rw [this] at h; cases h
 
 end C09.Sys
